@@ -76,10 +76,24 @@ def main():
                 lines = ["CASE %s" % cid, lp_block(lp), "SOLVE %s" % ck.rng.choice(ENTRIES)]
                 edits = ["CHG delbasicrow %d" % ck.rng.randrange(4)]
                 cfg = dict(entry="PRIMAL", warm="none")
+            elif (li + hi) % 5 == 1:
+                # a problem that came through a file carries the readers' row-wise copy of the matrix: write, read back, overwrite
+                # EXISTING coefficients, solve directly (scaling off, so that the simplex works on this very object)
+                ents = [(i_, j_) for i_, r_ in enumerate(lp["rows"]) for (j_, v_) in r_[4]]
+                if ents:
+                    f_ = "rb_%s.mps" % cid.replace(".", "_")
+                    lines = ["CASE %s" % cid, lp_block(lp), "WRITEPROB %s MPS" % f_, "READPROB %s MPS" % f_, "PARAM 7 0"]
+                    edits = ["CHG coef %d %d %s" % (i_, j_, qs(F(ck.rng.choice([-5, -4, -3, -2, 2, 3, 4, 5, 7])))) for (i_, j_) in ck.rng.sample(ents, min(len(ents), ck.rng.randint(1, 2)))]
+                    cfg = dict(entry=ck.rng.choice(["PRIMAL", "DUAL"]), warm="none")
             lines += edits + ["SOLVE " + cfg["entry"], "ACCESS", "GETBASIS", "DUMP"]
             cases.append((cid, "\n".join(lines) + "\n"))
             meta[cid] = (dict(lp, name=lp["name"] + "+edits", edits=edits), cfg)
-    M, outs, crashes = run_cases("h_solve", cases, per_case_timeout=40)
+    import tempfile as _tf, shutil as _sh
+    scratch_ = _tf.mkdtemp(prefix="qsx_c01_", dir="/var/tmp")
+    try:
+        M, outs, crashes = run_cases("h_solve", cases, per_case_timeout=40, env={"QSX_SCRATCH": scratch_})
+    finally:
+        _sh.rmtree(scratch_, ignore_errors=True)
     # a crash is not a C01 violation (C01 speaks about solves that succeed); crashes are C17's business and only counted here
     ck.cov["crashes_seen"] = [dict(case=cid, rc=rc) for cid, rc, err in crashes]
     # oracle queries
